@@ -8,6 +8,16 @@ PY = "/venv/bin/python"
 
 # property -> (technique, level text, level note, design ref)
 CHECKS = {
+    "C01": ("property-based testing (Hypothesis): analytic equilibrium tissues (Voronoi/Maxwell + Moebius images) vs "
+            "reported tensions",
+            "Generated-input exploration with a closed-form oracle: reported tensions are compared per physical "
+            "interface with T_true/mean(T_true) on equilibrium tissues at arbitrary pose, sampling, labelling, "
+            "resampling, three solver back-ends and two circle fits; tolerance = 3x the deviation the admissible "
+            "coefficient noise causes in the exact minimiser (typically 1e-6).",
+            "Trusted: analytic tissue model (self-tested); per-class coefficient noise floors; lmfit/lsq_linear "
+            "floors 1e-3/3e-4. Rotations are steered off known finding D1 by construction; rank-deficient augmented "
+            "systems are known finding D3 (counted, excluded). Under-determined tissues are skipped and counted.",
+            "DESIGN.md 4/C01"),
     "C02": ("property-based testing (Hypothesis) against closed-form tangents of exact arc/line tissues",
             "Generated-input exploration: every entry of the assembled force-balance matrix is compared with the "
             "analytic outward unit tangent on Voronoi/Moebius/lattice tissues, sub-tissues, near-axis rotations, both "
